@@ -112,7 +112,11 @@ class Model:
         for i, t in enumerate(cfg["tasks"], 1):
             task = self.tasks[i - 1]
             for tm in t["teams"]:
-                self.teams[tm - 1].append_targeted_task(task)
+                if cfg.get("oneSidedTeams"):
+                    # the team targets the task, the task does not list the team (constructor-style link)
+                    self.teams[tm - 1].targeted_task_list.append(task)
+                else:
+                    self.teams[tm - 1].append_targeted_task(task)
             for wp in t["wps"]:
                 self.wps[wp - 1].append_targeted_task(task)
             if t["fixWon"]:
